@@ -111,8 +111,31 @@ def check_calendar(seed, full=True):
     return n, bad
 
 
+def check_upper_classes():
+    """environment table behind the text model: str.upper() of one character yields 1..3 characters (this interpreter)"""
+    worst = 0
+    expanding = 0
+    for cpt in range(0x110000):
+        if 0xD800 <= cpt <= 0xDFFF:
+            continue
+        u = chr(cpt).upper()
+        if len(u) > worst:
+            worst = len(u)
+        if len(u) > 1:
+            expanding += 1
+    reps_ok = len('\u00df'.upper()) == 2 and len('\u0390'.upper()) == 3 and '\u017f'.upper() == 'S' and '\u00e9'.upper() == '\u00c9' and '\u4e2d'.upper() == '\u4e2d'
+    return worst, expanding, reps_ok
+
+
 def run(repo, seed=0, tier='quick'):
     out = {}
+    worst, expanding, reps_ok = check_upper_classes()
+    out['upper_max_expansion'] = worst
+    out['upper_expanding_code_points'] = expanding
+    if worst > 3 or not reps_ok:
+        out['ok'] = False
+        out['upper_model'] = 'representatives of the upper() classes no longer cover this interpreter'
+        return out
     n, bad = check_struct(repo, seed, 40 if tier == 'quick' else 400)
     out['struct_cases'] = n
     out['struct_disagreements'] = [repr(b)[:200] for b in bad]
